@@ -109,4 +109,10 @@ def families(tier, seed):
             Family("rdbx-estimate", est_scripts(tier, rng)),
             Family("api-wraps", [(f"wrap-{k}", __import__("lib.apigen", fromlist=["x"]).replay_history(rng, tier, n_ssrc=1, steps=(120 if tier == "quick" else 900))[0])
                                  for k in range(8 if tier == "quick" else 80)],
+                   monitor=lambda s, c: __import__("lib.apigen", fromlist=["x"]).replay_monitor(s, c, False)),
+            # common non-zero starting ROC on both sides, damaged copies arriving before genuine packets, reorder around wraps
+            Family("api-common-roc", [(f"croc-{k}", __import__("lib.apigen", fromlist=["x"]).replay_history(
+                                           rng, tier, n_ssrc=1, steps=(100 if tier == "quick" else 700),
+                                           common_roc=rng.choice([1, 7, 0x1234, 0xfffe]), damaged=0.25)[0])
+                                      for k in range(8 if tier == "quick" else 60)],
                    monitor=lambda s, c: __import__("lib.apigen", fromlist=["x"]).replay_monitor(s, c, False))]
